@@ -28,16 +28,19 @@ type Session struct {
 	Table Table
 	Ad    Adapter
 
-	Variant int // per-behaviour variant selector (flush thresholds etc.)
-	clock   int
-	after   []int64           // after[k]: a real instant at which the spec clock was k
-	commit  map[int]int64     // commit[k]: real commit time of the write that moved the clock to k
-	ids     map[string]uint64 // abstract entity -> internal id (learned from writes)
-	tokens  map[int]uint64    // reader id -> real token
-	Divs    []Divergence
-	Checks  int // number of compared answers
-	Skipped int // queries not asked (outside what the reference defines)
-	NonTriv bool
+	lastBackup *Obs
+	bm         *server.BackupManager
+	bmWorldGen int
+	Variant    int // per-behaviour variant selector (flush thresholds etc.)
+	clock      int
+	after      []int64           // after[k]: a real instant at which the spec clock was k
+	commit     map[int]int64     // commit[k]: real commit time of the write that moved the clock to k
+	ids        map[string]uint64 // abstract entity -> internal id (learned from writes)
+	tokens     map[int]uint64    // reader id -> real token
+	Divs       []Divergence
+	Checks     int // number of compared answers
+	Skipped    int // queries not asked (outside what the reference defines)
+	NonTriv    bool
 }
 
 func NewSession(w *World, h *Header, tag string, table Table, ad Adapter) *Session {
@@ -152,7 +155,13 @@ func (s *Session) Run(b *Behaviour) error {
 			return fmt.Errorf("step %d (%s): %w", i, b.Steps[i].A, err)
 		}
 	}
-	return s.CheckObs(&b.Obs)
+	if err := s.CheckObs(&b.Obs); err != nil {
+		return err
+	}
+	if s.lastBackup != nil {
+		return s.restoreAndCheck(s.lastBackup)
+	}
+	return nil
 }
 
 // Step executes one action of the behaviour on the real hub.
@@ -233,6 +242,16 @@ func (s *Session) Step(st *Step) error {
 			return err
 		}
 		s.NonTriv = true
+	case "backup":
+		if err := s.backup(); err != nil {
+			return err
+		}
+		s.lastBackup = st.Obs
+		s.NonTriv = true
+	case "foreign":
+		if err := s.foreignBackup(); err != nil {
+			return err
+		}
 	case "read":
 		return s.readPage(st)
 	default:
@@ -418,6 +437,11 @@ func (s *Session) checkChanges(o *Obs) error {
 	}
 	for _, n := range o.Names {
 		real := s.DsReal(n)
+		if !s.Ad.Exists(s, real) {
+			s.Checks++
+			s.diverge("exists", map[string]any{"ds": n}, true, false, "changes")
+			continue
+		}
 		for _, lo := range []bool{false, true} {
 			for _, lim := range s.H.Limits {
 				for since := uint64(0); since <= maxNext[n]+2; since++ {
